@@ -1426,6 +1426,103 @@ def expected_terms(gen, script):
     return pairs
 
 
+K_TEXTS = []
+STD_QUEUE = []
+
+
+def std_items(ans):
+    """items of a `readstd` answer -> list of lists of wire terms (one list per command)"""
+    tk = wire.Tok(ans)
+    assert tk.next() == "ok"
+    n = tk.nat()
+    out = []
+
+    def term():
+        i0 = tk.i
+        wire.dec_term(tk)
+        return " ".join(tk.t[i0:tk.i])
+    for _ in range(n):
+        t = tk.next()
+        if t == "-":
+            out.append([])
+        elif t == "A":
+            out.append([term()])
+        elif t == "T":
+            k = tk.nat()
+            out.append([term() for _ in range(k)])
+        elif t == "F":
+            tk.next()
+            k = tk.nat()
+            for _ in range(k):
+                tk.next()
+                wire.dec_type(tk)
+            wire.dec_type(tk)
+            term()
+            out.append([])
+        else:
+            raise ValueError("unexpected item %r" % t)
+    return out
+
+
+def run_std_oracle(ctx):
+    """second, independent oracle: the Lean standard reader (`Std.stepStd`/`readStd`) on the very same text"""
+    if not STD_QUEUE:
+        return
+    try:
+        answers = ctx.lean_run_sharded("C08", ["readstd " + hx(t) for t, _, _, _ in STD_QUEUE])
+    except common.LeanError as e:
+        ctx.report_l("driver C08 does not run", str(e))
+        return
+    lines, meta = [], []
+    for (text, pairs, rep, ig), ans in zip(STD_QUEUE, answers):
+        if not ans.startswith("ok"):
+            ctx.count("std_" + ans.split()[0])
+            if ans.startswith("err"):
+                msg = bytes.fromhex(ans.split()[2]).decode("utf-8", "replace") if len(ans.split()) > 2 else ""
+                ctx.count("std_err:" + ":".join(msg.split(":")[1:3])[:50].strip())
+            continue
+        ctx.count("std_accepts")
+        try:
+            items = std_items(ans)
+        except (ValueError, IndexError, AssertionError) as e:
+            ctx.infra("cannot decode a readstd answer: %r" % (e,))
+            continue
+        for what, got in pairs:
+            idx = what.split("#")[1]
+            ci = int(idx.split(".")[0])
+            ai = int(idx.split(".")[1]) if "." in idx else 0
+            if ci >= len(items) or ai >= len(items[ci]):
+                ctx.infra("readstd answer does not align with the script at %s" % what)
+                continue
+            try:
+                interps = ig.sample([got], n=4)
+                parts = ["chk_equiv_nofv", str(len(interps))]
+                for (sy, fn, doms) in interps:
+                    parts.append(wire.enc_interp(sy, fn, doms))
+                parts.append(items[ci][ai])
+                parts.append(wire.enc_term(got))
+            except wire.OutOfFragment:
+                continue
+            lines.append(" ".join(parts))
+            meta.append(({"oracle": "std-reader", "command": what.split("#")[0]},
+                         dict(rep, command=what, returned=semantic.readable(got))))
+    try:
+        answers = ctx.lean_run_sharded("Sem", lines)
+    except common.LeanError as e:
+        ctx.report_l("driver Sem does not run", str(e))
+        return
+    for line, ans, (sig, rep) in zip(lines, answers, meta):
+        if ans.startswith("ok"):
+            ctx.count("std_compared", int(ans.split()[1]))
+            continue
+        if ans.startswith("bad-op"):
+            ctx.infra("Sem driver rejected a request: %s" % ans)
+            continue
+        ctx.report_s(dict(sig, kind=ans.split()[1]),
+                     "the term returned for %s differs from the standard reader's (Lean `readStd`) elaboration of the text (%s): "
+                     "returned %s" % (rep["command"], ans[:80], rep["returned"]), dict(rep, request=line, answer=ans))
+
+
 def gen_script(rng, profile="std"):
     for _ in range(20):
         try:
@@ -1612,6 +1709,7 @@ CORPUS_COUNTS = {'fuzzed/AUFLIA.smt2.bz2': 16,
 # ------------------------------------------------------------------------------------------
 def check_script(ctx, g, text, ig, lines, meta, stream):
     """run the implementation on `text`; queue semantic comparisons"""
+    K_TEXTS.append((stream, text))
     res = run_impl(text)
     nontriv = text
     ctx.case(nontriv)
@@ -1640,6 +1738,8 @@ def check_script(ctx, g, text, ig, lines, meta, stream):
         ctx.report_s({"oracle": "commands", "kind": "structure", "stream": stream},
                      "the command list returned for the script differs from the text: %s" % e, dict(rep, error=str(e)))
         return
+    if not (g.nonstd or g.sugar or g.may_reject):
+        STD_QUEUE.append((text, [(what, got) for what, _, got in pairs if not what.startswith("define-fun")], rep, ig))
     for what, want, got in pairs:
         sig = {"oracle": "meaning", "stream": stream, "command": what.split("#")[0]}
         if g.capture_prone:
@@ -1687,6 +1787,7 @@ def run_malformed(ctx, n):
         except (IndexError, Rejectable):
             continue
         res = run_impl(text)
+        K_TEXTS.append(("malformed-" + kind, text))
         ctx.case("malformed:" + text)
         ctx.count("malformed_" + kind)
         if res[0] == "ok":
@@ -1713,6 +1814,7 @@ KNOWN_SHAPES = [
 
 def run_known_shapes(ctx):
     for fid, text, kind, detail in KNOWN_SHAPES:
+        K_TEXTS.append(("known-" + kind, text))
         res = run_impl(text)
         ctx.case("known:" + text)
         if res[0] == "ok":
@@ -1774,6 +1876,8 @@ def run(ctx):
     quick = ctx.tier == "quick"
     ig = Interps(ctx.rng)
     lines, meta = [], []
+    del K_TEXTS[:]
+    del STD_QUEUE[:]
     run_known_shapes(ctx)
     run_f10_f17(ctx, ig, lines, meta)
     n = 700 if quick else 12000
@@ -1786,16 +1890,93 @@ def run(ctx):
     run_malformed(ctx, 250 if quick else 4000)
     run_corpus(ctx)
     finish_sem(ctx, lines, meta)
-    run_model(ctx)
+    run_std_oracle(ctx)
+    run_model(ctx, K_TEXTS)
 
 
-def run_model(ctx):
-    """K: implementation vs Lean model of the parser (added with Impl/Parser.lean)"""
+# ------------------------------------------------------------------------------------------
+# K: the implementation against the Lean model of the parser (driver request `pread`)
+ERR_CLASS = {"PysmtSyntaxError": "syntax", "PysmtTypeError": "type", "PysmtValueError": "value",
+             "UnknownSmtLibCommandError": "unknown-command", "NotImplementedError": "not-implemented"}
+
+
+def hx(s):
+    return s.encode("utf-8").hex() or "_"
+
+
+def enc_script(script):
+    """the command list in the notation of lean/Drivers/C08.lean"""
+    parts = []
+    for c in script.commands:
+        n = c.name
+        if n == "set-logic":
+            parts.append("L " + (hx(c.args[0].name) if c.args[0] is not None else "-"))
+        elif n in ("push", "pop"):
+            parts.append("%s %d" % ("U" if n == "push" else "O", c.args[0]))
+        elif n == "declare-sort":
+            parts.append("DS %s %d" % (hx(c.args[0].name), c.args[0].arity))
+        elif n == "define-sort":
+            parts.append("FS %s %s" % (hx(c.args[0]), wire.enc_type(c.args[2])))
+        elif n in ("declare-fun", "declare-const"):
+            sy = c.args[0]
+            parts.append("D %s %s %s" % (hx(n), hx(sy.symbol_name()), wire.enc_symty(sy.symbol_type())))
+        elif n == "define-fun":
+            name, formals, rtype, body = c.args
+            parts.append("F %s %d%s %s %s" % (hx(name), len(formals),
+                                              "".join(" %s %s" % (hx(f.symbol_name()), wire.enc_type(f.symbol_type()))
+                                                      for f in formals),
+                                              wire.enc_type(rtype), wire.enc_term(body)))
+        elif n == "assert":
+            parts.append("A " + wire.enc_term(c.args[0]))
+        elif n in ("get-value", "check-sat-assuming"):
+            parts.append("T %s %d%s" % (hx(n), len(c.args), "".join(" " + wire.enc_term(a) for a in c.args)))
+        else:
+            if not all(isinstance(a, str) for a in c.args):
+                raise wire.OutOfFragment("command %s is not modelled" % n)
+            parts.append("P %s %d%s" % (hx(n), len(c.args), "".join(" " + hx(a) for a in c.args)))
+    return "ok %d %s" % (len(parts), " ".join(parts)) if parts else "ok 0"
+
+
+def impl_answer(text):
+    res = run_impl(text)
+    if res[0] == "err":
+        return "err " + ERR_CLASS.get(res[1], "other")
     try:
-        import props.c08_model as km
-    except ImportError:
+        return enc_script(res[1])
+    except wire.OutOfFragment:
+        return "out-of-fragment"
+
+
+def run_model(ctx, texts):
+    """texts: [(stream, text)]"""
+    lines = ["pread " + hx(t) for _, t in texts]
+    try:
+        answers = ctx.lean_run_sharded("C08", lines)
+    except common.LeanError as e:
+        ctx.report_l("driver C08 does not run", str(e))
         return
-    km.run(ctx)
+    for (stream, text), ans in zip(texts, answers):
+        ctx.count("k_cases")
+        if ans.startswith("bad-op"):
+            ctx.infra("C08 driver rejected a request: %s" % text[:200])
+            continue
+        if ans == "out-of-fragment" or ans.startswith("lex "):
+            ctx.count("k_" + ans.split()[0])
+            continue
+        got = impl_answer(text)
+        if got == "out-of-fragment":
+            ctx.count("k_out-of-fragment")
+            continue
+        if ans.startswith("err") and got.startswith("err"):
+            ctx.count("k_both_reject")
+            if ans != got:
+                ctx.count("k_error_class_differs:%s/%s" % (ans.split()[1], got.split()[1]))
+            continue
+        if ans == got:
+            ctx.count("k_agree")
+            continue
+        ctx.report_k("the parser model and SmtLibParser.get_script disagree (%s stream): model %s, implementation %s"
+                     % (stream, ans[:150], got[:150]), {"text": text, "model": ans, "implementation": got})
 
 
 def replay(ctx, rep):
